@@ -103,7 +103,7 @@ fn non_services() -> Vec<(&'static str, PTy)> {
 }
 
 fn name_two(list: &mut Vec<(Option<String>, PTy)>) {
-    if list.len() < 2 {
+    while list.len() < 2 {
         list.push((None, nat()));
     }
     let n = list.len();
@@ -376,15 +376,25 @@ fn simpler(p: &Prog) -> Vec<Prog> {
         out.push(q);
     }
     let ns: Vec<PTy> = nodes(p).into_iter().cloned().collect();
-    // a use of a name replaced by the (first) definition of the name
-    for (k, n) in ns.iter().enumerate() {
-        if let PTy::Var(v) = n {
-            if let Some((_, d)) = p.defs.iter().find(|d| d.0 == *v) {
-                if !matches!(d, PTy::Var(_)) {
-                    let d = d.clone();
-                    out.push(with_node(p, k, move |t| *t = d));
+    // a definition that does not mention itself, inlined at all its uses and removed
+    for (i, (name, d)) in p.defs.iter().enumerate() {
+        let mut inner = vec![];
+        visit(d, &mut inner);
+        let unique = p.defs.iter().filter(|x| x.0 == *name).count() == 1;
+        if unique && !inner.iter().any(|n| matches!(n, PTy::Var(v) if v == name)) {
+            let mut q = p.clone();
+            q.defs.remove(i);
+            loop {
+                let pos = nodes(&q).iter().position(|n| matches!(n, PTy::Var(v) if v == name));
+                match pos {
+                    Some(k) => {
+                        let d = d.clone();
+                        q = with_node(&q, k, move |t| *t = d);
+                    }
+                    None => break,
                 }
             }
+            out.push(q);
         }
     }
     // canonical definition names t0, t1, ... (all definitions and uses of the old name)
@@ -404,6 +414,18 @@ fn simpler(p: &Prog) -> Vec<Prog> {
                 }
             }
             out.push(q);
+        }
+    }
+    // a node replaced by one of its children (hoisting)
+    for (k, n) in ns.iter().enumerate() {
+        let children: Vec<PTy> = match n {
+            PTy::Record(fs) | PTy::Variant(fs) => fs.iter().map(|f| f.1.clone()).collect(),
+            PTy::Func(f) => f.args.iter().chain(f.rets.iter()).map(|a| a.1.clone()).collect(),
+            PTy::Service(ms) => ms.iter().map(|m| m.1.clone()).collect(),
+            _ => vec![],
+        };
+        for c in children {
+            out.push(with_node(p, k, move |t| *t = c));
         }
     }
     for (k, n) in ns.iter().enumerate() {
@@ -498,6 +520,10 @@ fn simpler(p: &Prog) -> Vec<Prog> {
     out
 }
 
+fn measure(p: &Prog) -> usize {
+    nodes(p).len() + p.defs.len()
+}
+
 /// Greedy fixpoint: keep taking the first simplification on which `still_fails` holds.
 pub fn shrink(p: &Prog, still_fails: &mut dyn FnMut(&Prog) -> bool) -> Prog {
     let mut cur = p.clone();
@@ -508,7 +534,7 @@ pub fn shrink(p: &Prog, still_fails: &mut dyn FnMut(&Prog) -> bool) -> Prog {
                 break 'outer;
             }
             budget -= 1;
-            if q.size() <= cur.size() && still_fails(&q) {
+            if measure(&q) <= measure(&cur) && still_fails(&q) {
                 cur = q;
                 continue 'outer;
             }
